@@ -302,3 +302,18 @@ Section VarianceGap.
     - apply qsum_map_le. intros k Hk. destruct (P k Hk). lra.
   Qed.
 End VarianceGap.
+
+(* every margin of the (repaired) copula chain: what is added to sigma_k^2 is nothing (finite variation) or the margin's second
+   moment over the central cell (infinite variation, h <= 2) *)
+Definition cv_ok (m : (Q -> Q -> Q) * Q * Q * Q * bool) : Prop :=
+  let '(m2, l, r, sigma, fv) := m in
+  (forall a b, a <= b -> 0 <= m2 a b) /\ (forall a a' b b', a == a' -> b == b' -> m2 a b == m2 a' b') /\ l <= r.
+Theorem copula_variance_added h ms : 0 < h -> h <= 2 -> Forall cv_ok ms ->
+  Forall (fun m => let '(m2, l, r, sigma, fv) := m in
+            sig_h2 (tmass m2 l r) sigma fv h == sigma * sigma + (if fv then 0 else tmass m2 l r (- (h / 2)) (h / 2))
+            /\ sigma * sigma <= sig_h2 (tmass m2 l r) sigma fv h) ms.
+Proof.
+  intros Hh H2 H. apply Forall_impl with (2 := H). intros [[[[m2 l] r] sigma] fv] (P & R & LR).
+  destruct (variance_added m2 P R l r LR sigma fv h Hh) as (V1 & V2 & V3 & V4).
+  split; [|exact V4]. destruct fv; [rewrite (V1 eq_refl); lra|rewrite (V3 eq_refl H2); reflexivity].
+Qed.
